@@ -42,3 +42,9 @@ package js_printer
 //@   loop 0 invariant wrapLongLines ==> p.options.LineLimit > 0 && -i - p.options.LineLimit <= startLineLength && startLineLength <= p.options.LineLimit
 //@   loop 0 decreases n - i
 //@   loop 1 invariant 0 <= j && j <= 6 && 1 <= i && i + 6 <= len(text) && n == len(text) && i <= n && len(temp) == 4
+
+// C07 ("a recorded name is the original identifier at that position"): the identifier printed at `loc` is a use of the
+// symbol `ref` of THIS file, whose OriginalName is the identifier text at that position. The symbol reached by
+// following cross-module links is another file's declaration (`import {BK001 as LK001}`: uses of LK001 would be
+// recorded as BK001), so the recorded name must not be taken from the followed symbol.
+//@ flow recorded-name-is-the-identifier-at-loc C07: func=(*printer).addSourceMappingForName ; in=js_printer ; site=call AddSourceMapping ; scenario=sourcemap_alias_name ; argnot=2:*FollowSymbols*
